@@ -27,6 +27,11 @@ theorem regex_pin :
 theorem epoch_pin : DateTables.epochMicros = gettextEpoch.minutes * 60000000
     ∧ DateTables.boilerplateDate = "YEAR-MO-DA HO:MI+ZONE".toList := ⟨epoch_eq, by decide⟩
 
+/-- the white-space class dumped from the running interpreter (`str.isspace` = `\s` under both patterns' flags) is the
+    expected one: 29 code points in 10 ranges (Unicode White_Space + the separators U+001C..U+001F) -/
+theorem whitespace_pin : DateTables.whitespace = [(0x9, 0xD), (0x1C, 0x20), (0x85, 0x85), (0xA0, 0xA0), (0x1680, 0x1680),
+    (0x2000, 0x200A), (0x2028, 0x2029), (0x202F, 0x202F), (0x205F, 0x205F), (0x3000, 0x3000)] := rfl
+
 /-- every abbreviation of the live table is alphabetic (so it cannot be confused with a numeric offset), none is listed
     twice, and every offset has the form `±HHMM` -/
 theorem table_pin : DateTables.timezones.all entryOk = true ∧ keysDistinct DateTables.timezones = true :=
@@ -374,7 +379,14 @@ theorem NoCrash (c : Ctx) : checkDates c ≠ none := by
 
 /-! ### non-vacuity -/
 
-example : fix "2020-01-01T10:00:59 CEST".toList none = .ok "2020-01-01 10:00+0200".toList := by decide
+example : fix "2020-01-01T10:00:59 +0200".toList none = .ok "2020-01-01 10:00+0200".toList := by decide
+-- an abbreviation: its unique table offset, or rejection (stated so that adding an offset to CEST in data/timezones keeps it true)
+example : fix "2020-01-01T10:00:59 CEST".toList none =
+    (match lookupTz "CEST".toList with
+     | some [z] => .ok ("2020-01-01 10:00".toList ++ z)
+     | _ => .syntaxErr) := by decide
+example : lookupTz "CEST".toList = some ["+0200".toList] → fix "2020-01-01T10:00:59 CEST".toList none = .ok "2020-01-01 10:00+0200".toList := by
+  decide
 example : fix " 2012-02-29\n23:59 UTC-00:30 ".toList none = .ok "2012-02-29 23:59-0030".toList := by decide
 example : fix "2013-02-29 10:00+0100".toList none = .syntaxErr := by decide
 example : fix "2012-11-01 14:42 EST".toList none = .syntaxErr := by decide           -- ambiguous abbreviation
